@@ -53,14 +53,15 @@ theorem runFuel_of_steps (code : List Instr) : ∀ (n : Nat) (m final : MState),
       exact ih m' final h hf
 
 /-- the step-by-step simulation (all statements, all embeddings of the compiled fragment in a larger graph,
-    all break/continue targets, all stacks of suspended callers): the induction behind `compile_correct` -/
+    all break/continue targets, all stacks of enclosing labelled loops, all stacks of suspended callers): the induction behind `compile_correct` -/
 theorem simulation (code : List Instr) (fs : Funs) (ent : Nat → Nat)
     (hfe : FunsEmbed code fs ent) (hfw : Funs.wf fs)
-    (fuel : Nat) (p : Stmt) (s s' : St) (sig : Sig) (base next brk cont : Nat) (σ : List Frame)
+    (fuel : Nat) (p : Stmt) (s s' : St) (sig : Sig) (base next brk cont fin : Nat)
+    (ls : List (Nat × Nat)) (σ : List Frame)
     (hwf : p.wf = true) (h : exec fs fuel p s = some (sig, s'))
-    (hemb : Embeds code (compile ent p base next brk cont) base) :
-    ∃ n, steps code n (.run base s σ) = some (target next brk cont σ sig s') :=
-  sim code fs ent hfe hfw fuel p s s' sig base next brk cont σ hwf h hemb
+    (hemb : Embeds code (compile ent fin ls p base next brk cont) base) :
+    ∃ n, steps code n (.run base s σ) = some (target next brk cont fin ls σ sig s') :=
+  sim code fs ent hfe hfw fuel p s s' sig base next brk cont fin ls σ hwf h hemb
 
 /-- conditions: `&&` / `||` / `!` compiled to branches reach the true or the false exit according to
     Go's short-circuit evaluation, and an operand that panics panics the machine -/
@@ -96,9 +97,9 @@ theorem compile_correct (fs : Funs) (p : Stmt) (s : St) (fuel : Nat) (o : Outcom
     rw [compile_length] at hret
     simp only [Nat.zero_add] at hret hbody
     obtain ⟨n, hn⟩ := sim (compileProg fs p) fs (entryOf p fs) (compileProg_funs fs p) hfw fuel p s s' sig
-      0 p.size p.size p.size [] hwf hx hbody
+      0 p.size p.size p.size p.size [] [] hwf hx hbody
     -- a main body that ends without `return` reaches the trailing `return 0`
-    have fell : target p.size p.size p.size [] sig s' = .run p.size s' [] →
+    have fell : target p.size p.size p.size p.size [] [] sig s' = .run p.size s' [] →
         steps (compileProg fs p) (n + 1) (.run 0 s []) = some (.done s') := by
       intro ht
       rw [ht] at hn
@@ -114,6 +115,14 @@ theorem compile_correct (fs : Funs) (p : Stmt) (s : St) (fuel : Nat) (o : Outcom
     | cont =>
       simp only [hx, Option.some.injEq] at h
       exact ⟨n + 1 + 1, .done s', runFuel_of_steps _ _ _ _ (fell rfl) rfl, by simp [machineOutcome, ← h]⟩
+    | brkL k =>
+      simp only [hx, Option.some.injEq] at h
+      exact ⟨n + 1 + 1, .done s', runFuel_of_steps _ _ _ _ (fell (by simp [target, labelBrk])) rfl,
+        by simp [machineOutcome, ← h]⟩
+    | contL k =>
+      simp only [hx, Option.some.injEq] at h
+      exact ⟨n + 1 + 1, .done s', runFuel_of_steps _ _ _ _ (fell (by simp [target, labelCont])) rfl,
+        by simp [machineOutcome, ← h]⟩
     | panic =>
       simp only [hx, Option.some.injEq] at h
       exact ⟨n + 1, .panicked s', runFuel_of_steps _ _ _ _ (by simpa [target] using hn) rfl,
@@ -194,5 +203,22 @@ example : exCallMain.wf = true ∧ exFact.wf = true ∧
 /-- … and a division by zero ends in a panic after the output produced so far -/
 example : specOutcome [] 10 (.seq (.print (.lit 5)) (.print (.bin .quo (.lit 1) (.var 0)))) st0 = some ⟨[5], true⟩ := by
   decide
+
+/-- labelled `continue` and `break` naming the outer of two nested loops -/
+def exLabel : Stmt :=
+  .seq (.assign 0 (.lit 0))
+    (.loop (.cmp .lt (.var 0) (.lit 3))
+      (.seq (.assign 1 (.lit 0))
+        (.loop (.cmp .lt (.var 1) (.lit 3))
+          (.seq (.ite (.cmp .eq (.var 1) (.lit 1)) (.contL 1) .skip)
+            (.seq (.ite (.cmp .eq (.var 0) (.lit 2)) (.brkL 1) .skip)
+              (.print (.bin .add (.bin .mul (.var 0) (.lit 10)) (.var 1)))))
+          (.assign 1 (.bin .add (.var 1) (.lit 1)))))
+      (.assign 0 (.bin .add (.var 0) (.lit 1))))
+
+example : exLabel.wf = true ∧ specOutcome [] 60 exLabel st0 = some ⟨[0, 10], false⟩ := by
+  constructor
+  · rfl
+  · decide
 
 end YaegiVerif.Props.C01
